@@ -450,6 +450,7 @@ fn next_task_case(has_poll: bool, has_ka: bool) -> (Instant, Instant) {
 // @bounds an association with nothing automatic to do, any clock, the poll map reporting "next poll not before P" and the keep-alive deadline D, both arbitrary instants in the future: the association wakes at the EARLIER of P and D
 // @stubs PollMap::next -> NotBefore(P) (the BTreeMap walk behind it: c19_poll_period_and_demand / c19_smallest_deadline); Association::next_link_status_task -> NotBefore(D) (asserts that D is the stored deadline and lies in the future: exact on the paths explored); TaskStates::next -> nothing to do (its order: c17_auto_task_order); tokio::time::Instant::now -> harness clock.  The stubs return constant enum variants so that the Task-moving arms are pruned (DESIGN 12).
 // @outside poll due now / keep-alive due now (the `Now` arms), automatic tasks pending
+// @replay trace
 #[kani::proof]
 #[kani::unwind(4)]
 #[kani::stub(tokio::time::Instant::now, crate::verif_common::now_fixed)]
@@ -470,6 +471,7 @@ fn c19_next_task_earliest_deadline() {
 // @units Association::get_next_task
 // @bounds as above with only a poll (no keep-alive configured): wakes at P
 // @stubs as c19_next_task_earliest_deadline with next_link_status_task -> None
+// @replay trace
 #[kani::proof]
 #[kani::unwind(4)]
 #[kani::stub(tokio::time::Instant::now, crate::verif_common::now_fixed)]
@@ -488,6 +490,7 @@ fn c19_next_task_single_deadline() {
 // @units Association::get_next_task
 // @bounds no polls configured: wakes at the keep-alive deadline D, or has nothing to wait for when there is none
 // @stubs as c19_next_task_earliest_deadline with PollMap::next -> None
+// @replay trace
 #[kani::proof]
 #[kani::unwind(4)]
 #[kani::stub(tokio::time::Instant::now, crate::verif_common::now_fixed)]
@@ -525,6 +528,7 @@ fn marked(code: u8, mark: u32, strategy: RetryStrategy) -> AutoTaskState {
 // @bounds each of the six automatic-task states idle or not, any configuration (class sets for disable / integrity / enable / event scan, automatic time sync on or off), any events-available bits: the state that is consulted - and therefore the task that runs or whose retry is waited for - is the FIRST applicable one in the order clear-restart > disable-unsolicited > integrity > time-sync > enable-unsolicited > event-scan; so a restart is acknowledged before anything else, unsolicited reporting is switched on only after the integrity poll and time sync are out of the way, and nothing else runs while an earlier step waits for its retry
 // @stubs AutoTaskState::create_next_task -> returns NotBefore(the mark stored in the consulted state) and never calls the task constructor (which task object is built for the chosen state, and Pending/retry-due => Now, are outside: building the 104-byte Task stalls CBMC's symbolic execution, see c17_auto_task_priority)
 // @outside the Task values themselves; dynamic re-arming (c17_restart_and_iin_rearm, c17_reset_rearms_startup); retry timing (c17_auto_task_failure_schedules_retry)
+// @replay trace
 #[kani::proof]
 #[kani::unwind(4)]
 #[kani::stub(tokio::time::Instant::now, crate::verif_common::now_fixed)]
